@@ -189,6 +189,9 @@ func runC01(c *Ctx) {
 			}
 		}
 	}
+	// R7: what a failed phase 2 restores is the PRE-commit handle state.
+	r7 := c.Rule("R7", "a commit that fails at or after the commit point restores pre-commit handles: phase1Commit writes the handles' pre-images to the priority log before activateInactiveNodes/touchNodes flip them in place, from exactly the slices those calls receive (shared with C08.R2)", 4)
+	rulePreImagesBeforeFlip(c, r7)
 	_ = ast.Inspect
 }
 
